@@ -72,7 +72,7 @@ def stage(ctx, rng, glayout, gmodel, tb):
     for _ in range(500 if quick else 20000):
         ts = rand_types(rng, ROW_TYPES, 1, 40)
         add({"op": "row", "types": ts}, "row " + ptys(ts), "row")
-    # sort layouts (a LIST key must panic on both sides)
+    # sort layouts (a LIST / STRUCT key is an error on both sides, never a panic)
     for t in SORT_TYPES:
         add({"op": "sort", "types": [t]}, "sort " + ptys([t]), "sort")
     add({"op": "sort", "types": []}, "sort -", "sort")
@@ -170,7 +170,8 @@ def stage(ctx, rng, glayout, gmodel, tb):
 
 
 def stage_sql(gverif):
-    """the one query-level observation of this model: a LIST sort key reaches unimplemented!()"""
+    """the one query-level observation of this model: a LIST sort key must fail cleanly (repaired 59d348515; it used
+    to reach unimplemented!()) - a panic here is a violation"""
     sql = "select l from (select [1,2] as l union all select [3]) s order by l"
     r = common.run_harness(gverif, "sql", [{"id": "s", "mode": "threaded", "threads": 1, "timeout_s": 20, "stmts": [sql]}], timeout=60)[0]
     last = (r.get("results") or [{}])[-1]
@@ -197,6 +198,9 @@ def run(ctx):
         out["violations"].append({"what": m.get("what", "real layout / block arithmetic differs from the model (model/Layout.v)"), "replay": m, "no_input": False})
     sql, last, raw = stage_sql(gverif)
     listed = {k["id"]: k for k in common.known_findings()["known"] if k["property"] == PID}
+    if last.get("ok"):
+        out["violations"].append({"what": "ORDER BY a list column succeeds although the modelled SortLayout::try_new refuses list keys (re-transcribe model/Layout.v)",
+                                  "replay": {"sql": [sql], "result": str(last)[:300]}, "no_input": False})
     if "panic" in last or "abort" in raw:
         if "order-by-list-panics" in listed and "not implemented" in (last.get("panic") or str(raw.get("stderr", ""))):
             out["known"].append("order-by-list-panics: %s (%s)" % (listed["order-by-list-panics"]["what"], sql))
